@@ -339,10 +339,20 @@ func (ex *Exec) externAttrCall(key string, args []Val, resT types.Type) (Val, bo
 	return Val{}, false
 }
 
+// externKey is the name under which a callee is looked up in `extern` declarations: its full name without
+// the type arguments of a generic instantiation.
+func externKey(callee *ssa.Function) string {
+	full := callee.String()
+	if i := strings.Index(full, "["); i >= 0 {
+		full = full[:i]
+	}
+	return full
+}
+
 var externHdrRe = regexp.MustCompile(`\(([^()]*)\)\s*$`)
 
 func (ex *Exec) externalCall(fr *Frame, callee *ssa.Function, args []Val, st *State, cur *smt.Term, mkRes func(string) Val, in ssa.Instruction, cc *ssa.CallCommon) (Val, *smt.Term) {
-	full := callee.String()
+	full := externKey(callee)
 	var resT types.Type = callee.Signature.Results()
 	if callee.Signature.Results().Len() == 1 {
 		resT = callee.Signature.Results().At(0).Type()
@@ -413,6 +423,40 @@ func (ex *Exec) externFuncCall(fr *Frame, full string, args []Val, st *State, cu
 					ex.havocLvalue(envPre, st, m, cl)
 				}
 			}
+		}
+		// sets ghost(x) = e : all right-hand sides are read in the state before the call
+		type gset struct {
+			k        *HeapKey
+			ref, val *smt.Term
+		}
+		var gsets []gset
+		for _, cl := range fc.Clauses {
+			if cl.Kind != "sets" {
+				continue
+			}
+			call := cl.Mods[0].(*ECall)
+			id, _ := call.Fun.(*EIdent)
+			var pd *PredDecl
+			if id != nil {
+				pd = pc.Preds[id.Name]
+				if pd == nil {
+					pd = ex.Prog.FindPred(id.Name)
+				}
+			}
+			if pd == nil || pd.Kind != "ghost" {
+				ex.contractError(cl, "sets: not a ghost field")
+			}
+			rt := envPre.specType(pd.ResType)
+			tv := envPre.eval(call.Args[0])
+			ref := tv.Tm
+			if ref == nil {
+				ref = ex.ptrTerm(tv)
+			}
+			val := envPre.eval(cl.E)
+			gsets = append(gsets, gset{ex.ghostKey(pd.Name, rt), ref, val.Tm})
+		}
+		for _, g := range gsets {
+			st.heap[g.k.Name] = c.Store(ex.heapGet(st, g.k), g.ref, g.val)
 		}
 		res, cur2 := base(cur)
 		cur = cur2
